@@ -654,7 +654,9 @@ func installMonitor(i *interpreter, kind string) {
 			onMapRead:  func(fr *frame, m *omap) {},
 		}
 	case "ownership":
-		installOwnership(i)
+		installOwnership(i, 1)
+	case "ownership-lifo":
+		installOwnership(i, 0)
 	default:
 		unsupported("unknown monitor %q", kind)
 	}
@@ -670,7 +672,7 @@ func installMonitor(i *interpreter, kind string) {
 //  3. Pool.Get returns nondeterministically a fresh map or ANY map that was
 //     ever Put (another goroutine may have put it): results must not depend
 //     on the choice.
-func installOwnership(i *interpreter) {
+func installOwnership(i *interpreter, poolBudget int) {
 	shared := map[*value]bool{}
 	sharedMaps := map[*omap]bool{}
 	seenSlices := map[*value]bool{}
@@ -786,7 +788,6 @@ func installOwnership(i *interpreter) {
 	// calls per path pick another pooled map or a fresh one): pooled maps are
 	// empty and indistinguishable when discipline 2 holds, which is checked on
 	// every path.
-	poolBudget := 1
 	ex.poolHook = func(fr *frame, pool *value) (value, bool) {
 		cands := fr.i.pools[pool]
 		if poolBudget == 0 || len(cands) == 0 {
